@@ -666,6 +666,70 @@ func (c *Ctx) r0116(pk *packages.Package) {
 		return f == "inFor" && strings.HasSuffix(typ, "jsMinifier")
 	}
 	regions, calls := 0, 0
+	// printer functions that may print an expression, at a level at which `in` stands without parentheses, before they
+	// have written an opening bracket or set the flag themselves (an arrow function with an expression body)
+	var opCompare int64 = -1
+	if dep := c.P.Dep(pjs); dep != nil {
+		if k, ok := dep.Types.Scope().Lookup("OpCompare").(*types.Const); ok {
+			opCompare, _ = constant.Int64Val(k.Val())
+		}
+	}
+	bare := map[string]bool{}
+	for _, fd := range load.FuncDecls(pk) {
+		if fd.Body == nil || fd.Recv == nil || opCompare < 0 {
+			continue
+		}
+		g := c.graph(pk, fd)
+		for _, z := range g.Nodes {
+			a := z.Ast()
+			if a == nil || z.Kind != flow.KStmt {
+				continue
+			}
+			low := false
+			flowInspectCalls(a, func(call *ast.CallExpr) {
+				if calleeName(info, call) == minExpr && len(call.Args) == 2 {
+					if v, isK := intConst(info, call.Args[1]); !isK || v <= opCompare {
+						low = true
+					}
+				}
+			})
+			if !low {
+				continue
+			}
+			z := z
+			p := g.Path(flow.Search{From: []*flow.Node{g.Entry}, Goal: func(q *flow.Node) bool { return q == z }, Avoid: func(q *flow.Node) bool {
+				if q == z {
+					return false
+				}
+				if _, isAs := assignsTo(q, isFlag); isAs {
+					return true
+				}
+				b := q.Ast()
+				if b == nil || q.Kind != flow.KStmt {
+					return false
+				}
+				hit := false
+				flowInspectCalls(b, func(call *ast.CallExpr) {
+					if calleeName(info, call) != jsWrite || len(call.Args) != 1 {
+						return
+					}
+					if v, err := c.Ev.Expr(pk, call.Args[0]); err == nil {
+						if bs, isB := v.([]byte); isB && len(bs) > 0 {
+							switch bs[len(bs)-1] {
+							case '(', '[', '{':
+								hit = true
+							}
+						}
+					}
+				})
+				return hit
+			}})
+			if p != nil {
+				bare[load.Mod+"/js.(jsMinifier)."+fd.Name.Name] = true
+			}
+		}
+	}
+	delete(bare, minExpr)
 	for _, fd := range load.FuncDecls(pk) {
 		if fd.Body == nil {
 			continue
@@ -745,7 +809,7 @@ func (c *Ctx) r0116(pk *packages.Package) {
 				}
 				direct := false
 				flowInspectCalls(a, func(call *ast.CallExpr) {
-					if calleeName(info, call) == minExpr {
+					if cn := calleeName(info, call); cn == minExpr || bare[cn] {
 						direct = true
 					}
 				})
@@ -2022,7 +2086,7 @@ func (c *Ctx) r0918(pk *packages.Package) {
 
 // R09.20: no string literal is printed with a live `</script`.
 func (c *Ctx) r0920(pk *packages.Package, rule string) {
-	c.R.Rule(rule, "inside an HTML script element the text `</script` — in any case, followed by white space, `/` or `>` — ends the element, so a JavaScript string must never be printed with it. Authors write `<\\/script>` or `\\x3C/script>`; js.replaceEscapes, which strips unnecessary escapes and decodes `\\x..` / `\\u....`, has to leave those alone and to add the backslash where it is missing. In replaceEscapes (and the helpers it calls) (a) the end tag is recognised by a case-folding comparison of the six letters `script` (bytes.EqualFold / parse.EqualFold), not by comparing with a longer fixed string such as `/script>` — `<\\/script >` and `<\\/SCRIPT>` lost their backslash; (b) the branches that decode a `\\x`, a `\\u` and a legacy octal escape each consult that recogniser, so that an escape that would produce the `<` of `</script` stays an escape; (d) what the decoding branches consult also recognises `!--`: after `<!--` a `<script` makes the HTML tokenizer skip the next `</script>`; (c) minifyRegExp, which strips unnecessary backslashes from regular expression literals, consults it too (`[<\\/script>]`)")
+	c.R.Rule(rule, "inside an HTML script element the text `</script` — in any case, followed by white space, `/` or `>` — ends the element, so a JavaScript string must never be printed with it. Authors write `<\\/script>` or `\\x3C/script>`; js.replaceEscapes, which strips unnecessary escapes and decodes `\\x..` / `\\u....`, has to leave those alone and to add the backslash where it is missing. In replaceEscapes (and the helpers it calls) (a) the end tag is recognised by a case-folding comparison of the six letters `script` (bytes.EqualFold / parse.EqualFold), not by comparing with a longer fixed string such as `/script>` — `<\\/script >` and `<\\/SCRIPT>` lost their backslash; (b) the branches that decode a `\\x`, a `\\u` and a legacy octal escape each consult that recogniser, so that an escape that would produce the `<` of `</script` stays an escape; (d) what the decoding branches consult also recognises `!--`: after `<!--` a `<script` makes the HTML tokenizer skip the next `</script>`; (e) minifyString, which chooses the quotes before replaceEscapes runs, clears its template-literal flag under a test that consults the recogniser — an octal escape that is kept may not end up in a template literal; (c) minifyRegExp, which strips unnecessary backslashes from regular expression literals, consults it too (`[<\\/script>]`)")
 	info := pk.TypesInfo
 	fd := c.fn(rule, pk, "replaceEscapes")
 	if fd == nil {
@@ -2142,6 +2206,37 @@ func (c *Ctx) r0920(pk *packages.Package, rule string) {
 			})
 		}
 		c.R.Check(comment, rule, "js.replaceEscapes/"+br.name+" escape not decoded into the `<` of `<!--`", c.pos(branch), "the recogniser the branch consults compares with `!--`", "a "+br.name+" escape is decoded into a `<` in front of `!--`: `x='\\x3C!--\\x3Cscript>'` is printed as `x=\"<!--<script>\"`; inside a script element that puts the HTML tokenizer into the double-escaped state, in which the next `</script>` does not end the element")
+	}
+	// (e) a kept octal escape excludes the template literal
+	if md := load.Func(pk, "minifyString"); md == nil || md.Body == nil {
+		c.R.Unres(rule, "js.minifyString/kept octal escape excludes a template literal", c.pos(fd), "minifyString not found")
+	} else {
+		var flag types.Object
+		if md.Type.Params != nil {
+			for _, f := range md.Type.Params.List {
+				for _, nm := range f.Names {
+					if b, ok := info.TypeOf(f.Type).Underlying().(*types.Basic); ok && b.Kind() == types.Bool {
+						flag = info.Defs[nm]
+					}
+				}
+			}
+		}
+		good := false
+		ast.Inspect(md.Body, func(z ast.Node) bool {
+			ifs, ok := z.(*ast.IfStmt)
+			if !ok || !callsRecogniser(ifs.Cond) {
+				return true
+			}
+			for _, st := range ifs.Body.List {
+				if as, ok := st.(*ast.AssignStmt); ok && len(as.Lhs) == 1 && len(as.Rhs) == 1 && nospace(str(as.Rhs[0])) == "false" {
+					if id, ok := as.Lhs[0].(*ast.Ident); ok && flag != nil && info.Uses[id] == flag {
+						good = true
+					}
+				}
+			}
+			return true
+		})
+		c.R.Check(good, rule, "js.minifyString/kept octal escape excludes a template literal", c.pos(md), "the template flag is cleared under a test that consults the end tag recogniser", "an octal escape that replaceEscapes keeps (`\\74` in front of `/script`) ends up in a template literal when the string has enough newlines: `x=\"\\n\\n\\74/script>\"` becomes a template literal with `\\74`, which is a SyntaxError (octal escapes are not allowed there)")
 	}
 	// (c) the routine that strips backslashes from regular expressions
 	if rd := load.Func(pk, "minifyRegExp"); rd == nil || rd.Body == nil {
